@@ -1433,3 +1433,242 @@ def e_datasets_misc(c):
     b = c.call(B.Background2D, c.data, 8, mask=c.mask, interpolator=z)
     c.read_all(b)
     _ = mesh
+
+
+# ----------------------------------------------------------------------
+# third layer (follow-up): every NDData argument form of the ePSF family, catalogues with neighbouring
+# segments inside the Kron / circular aperture boxes, patch helpers with a non-default origin
+# ----------------------------------------------------------------------
+def _weights_uncertainty_cls():
+    from astropy.nddata import NDUncertainty
+
+    class WeightsUncertainty(NDUncertainty):
+        """Minimal NDUncertainty whose uncertainty_type is 'weights' (the kind extract_stars documents)."""
+
+        @property
+        def uncertainty_type(self):
+            return 'weights'
+
+        def _data_unit_to_uncertainty_unit(self, value):
+            return None
+
+        def _propagate_add(self, *a):
+            return None
+
+        def _propagate_subtract(self, *a):
+            return None
+
+        def _propagate_multiply(self, *a):
+            return None
+
+        def _propagate_divide(self, *a):
+            return None
+    return WeightsUncertainty
+
+
+UNC_KINDS = ('none', 'std', 'var', 'ivar', 'weights', 'weights_f32', 'unknown')
+
+
+def _nddata_form(c, kind, with_mask=True, wcs=None, which='data'):
+    """NDData carrying the represented image, a mask with masked pixels inside the star cutouts and one
+    uncertainty kind. Every array is registered with the case-level sentinel."""
+    from astropy.nddata import (InverseVariance, NDData, StdDevUncertainty, UnknownUncertainty,
+                                VarianceUncertainty)
+    data = c.data if which == 'data' else c.arr(c.raw, 'data2', primary=True)
+    unit = None
+    if c.unit is not None:
+        data = c.own(np.array(data.value), 'nddata_values')
+        unit = c.unit
+    err = np.where(np.isfinite(c.raw_err), c.raw_err, 1.0)
+    mask = None
+    if with_mask:
+        m = np.zeros(c.shape, bool) if c.raw_mask is None else c.raw_mask.copy()
+        for (x, y) in c.xy:                      # masked pixels INSIDE every star cutout (not the core)
+            m[int(round(y)) + 3, int(round(x)) - 2] = True
+            m[int(round(y)) - 4, int(round(x)) + 1] = True
+        mask = c.boolarr(m, 'nd_mask')
+    if kind == 'none':
+        unc = None
+    elif kind == 'std':
+        unc = StdDevUncertainty(c.plain(err, 'unc_array'))
+    elif kind == 'var':
+        unc = VarianceUncertainty(c.plain(err ** 2, 'unc_array'))
+    elif kind == 'ivar':
+        unc = InverseVariance(c.plain(1.0 / err ** 2, 'unc_array'))
+    elif kind == 'weights':
+        unc = _weights_uncertainty_cls()(c.plain(1.0 / err, 'unc_array'))
+    elif kind == 'weights_f32':
+        unc = _weights_uncertainty_cls()(c.plain((1.0 / err).astype(np.float32), 'unc_array', dtype=np.float32))
+    else:
+        unc = UnknownUncertainty(c.plain(err, 'unc_array'))
+    nd = c.call(NDData, data, uncertainty=unc, mask=mask, unit=unit, wcs=wcs, meta={'form': kind})
+    if nd is not None:
+        c.own(nd, 'nddata')
+    return nd
+
+
+@entry('extract_stars_nddata')
+def e_extract_stars_nddata(c):
+    from astropy.table import Table
+    from photutils.datasets import make_wcs
+    from photutils.psf import EPSFBuilder, EPSFFitter, EPSFStar, EPSFStars, LinkedEPSFStar, extract_stars
+    rng = c.rng
+    kinds = [UNC_KINDS[i] for i in rng.permutation(len(UNC_KINDS))]
+    wcs = make_wcs(c.shape)
+    k1, k2 = kinds[0], kinds[1]
+    form = int(rng.integers(0, 4))
+    stars = None
+    if form == 0:                                   # single NDData, x/y catalogue
+        nd = _nddata_form(c, k1)
+        if nd is None:
+            return
+        stars = c.call(extract_stars, nd, c.star_table(('x', 'y')), size=int(rng.choice([9, 11])))
+    elif form == 1:                                 # single NDData + wcs, skycoord catalogue
+        nd = _nddata_form(c, k1, wcs=wcs)
+        if nd is None:
+            return
+        t = Table()
+        t['skycoord'] = wcs.pixel_to_world(c.xy[:, 0], c.xy[:, 1])
+        c.own(t, 'table')
+        stars = c.call(extract_stars, nd, t, size=11)
+    elif form == 2:                                 # list of NDData, one catalogue per image
+        nd1 = _nddata_form(c, k1)
+        nd2 = _nddata_form(c, k2, which='data2')
+        if nd1 is None or nd2 is None:
+            return
+        lst = c.own([nd1, nd2], 'nddata_list')
+        cats = c.own([c.star_table(('x', 'y')), c.star_table(('x', 'y'))], 'catalogs')
+        stars = c.call(extract_stars, lst, cats, size=(9, 11))
+    else:                                           # list of NDData with wcs, ONE skycoord catalogue -> linked stars
+        nd1 = _nddata_form(c, k1, wcs=wcs)
+        nd2 = _nddata_form(c, k2, wcs=wcs, which='data2')
+        if nd1 is None or nd2 is None:
+            return
+        t = Table()
+        t['skycoord'] = wcs.pixel_to_world(c.xy[:, 0], c.xy[:, 1])
+        if rng.random() < 0.5:
+            t['id'] = np.arange(len(c.xy)) + 10
+        c.own(t, 'table')
+        stars = c.call(extract_stars, c.own([nd1, nd2], 'nddata_list'), t, size=11)
+    if stars is None:
+        return
+    c.own(stars, 'stars')
+    c.read_all(stars)
+    for s in list(stars)[:2]:
+        c.read_all(s)
+        if isinstance(s, LinkedEPSFStar):
+            c.call(s.constrain_centers)
+        elif isinstance(s, EPSFStar):
+            c.call(s.estimate_flux)
+            c.call(np.asarray, s)
+    c.call(stars.__getitem__, 0)
+    c.call(stars.__getitem__, slice(0, 2))
+    c.call(len, stars)
+    c.call(lambda: [s for s in stars])
+    flat = c.call(lambda: stars.all_good_stars)
+    if flat:
+        c.call(EPSFStars, list(flat))
+    if rng.random() < 0.5:                          # tiny build on these stars (maxiters 1-2)
+        b = c.call(EPSFBuilder, oversampling=int(rng.choice([1, 2])), maxiters=int(rng.choice([1, 2])),
+                   progress_bar=False, recentering_maxiters=3)
+        if b is not None:
+            r = c.call(b, stars)
+            if r is not None:
+                epsf, fitted = r
+                c.read_all(fitted)
+                ft = c.call(EPSFFitter, fit_boxsize=int(rng.choice([3, 5])))
+                if ft is not None:
+                    c.call(ft, epsf, stars)
+                for s in list(fitted)[:1]:
+                    if hasattr(s, 'compute_residual_image'):
+                        c.call(s.compute_residual_image, epsf)
+                        c.call(s.register_epsf, epsf)
+
+
+@entry('SourceCatalog_neighbours')
+def e_source_catalog_neighbours(c):
+    """Close pairs: every source has pixels of ANOTHER labelled segment inside its Kron / circular aperture
+    box, float64 error array, each apermask_method, then the lazy aperture-based reads."""
+    from photutils.segmentation import SegmentationImage, SourceCatalog
+    rng = c.rng
+    ny, nx = c.shape
+    yy, xx = np.mgrid[0:ny, 0:nx]
+    img = np.array(c.raw, copy=True)
+    centres = []
+    for (x, y) in c.xy[:3]:                          # add a companion 4-6 px away from each of the first stars
+        ang = rng.uniform(0, 2 * np.pi)
+        d = rng.uniform(4.0, 6.0)
+        x2, y2 = x + d * np.cos(ang), y + d * np.sin(ang)
+        if not (4 < x2 < nx - 5 and 4 < y2 < ny - 5):
+            x2, y2 = x - d * np.cos(ang), y - d * np.sin(ang)
+        fin = np.isfinite(img)
+        img[fin] += (120.0 * np.exp(-((xx - x2) ** 2 + (yy - y2) ** 2) / (2 * c.sigma ** 2)))[fin]
+        centres += [(x, y), (x2, y2)]
+    for (x, y) in c.xy[3:]:
+        centres.append((x, y))
+    centres = np.array(centres)
+    # harness-side segmentation: pixels within 3.2 px of a centre, assigned to the nearest centre
+    d2 = (xx[None] - centres[:, 0, None, None]) ** 2 + (yy[None] - centres[:, 1, None, None]) ** 2
+    nearest = np.argmin(d2, axis=0)
+    seg = np.where(np.min(d2, axis=0) <= 3.2 ** 2, nearest + 1, 0).astype(int)
+    segm = SegmentationImage(seg)
+    c.own(segm, 'segment_img')
+    data = c.arr(img, 'data_pairs', primary=True)
+    err64 = np.array(np.where(np.isfinite(c.raw_err), c.raw_err, 1.0), dtype=np.float64)
+    if c.cond in ('nonfinite', 'mask_nonfinite'):
+        err64[int(c.xy[0, 1]) - 3, int(c.xy[0, 0]) + 3] = np.nan
+    error = c.arr(err64, 'error64', secondary=True, allow_int=False)
+    method = ['correct', 'mask', 'none'][int(rng.integers(0, 3))]
+    kw = dict(error=error, mask=c.mask, apermask_method=method, progress_bar=False,
+              kron_params=(2.5, 1.4, 0.0) if rng.random() < 0.5 else (2.0, 1.0, 3.0),
+              localbkg_width=int(rng.choice([0, 0, 5])))
+    if rng.random() < 0.4:
+        kw['background'] = c.arr(np.full(c.shape, 0.2), 'background', secondary=True, allow_int=False)
+    cat = c.call(SourceCatalog, data, segm, **kw)
+    if cat is None:
+        return
+    lazy = ['kron_flux', 'kron_fluxerr', 'kron_radius', 'kron_aperture', 'local_background',
+            'centroid_win', 'fwhm', 'segment_fluxerr']
+    for name in [lazy[i] for i in rng.permutation(len(lazy))]:
+        c.call(getattr, cat, name)
+    c.call(cat.circular_photometry, float(rng.choice([3.0, 6.0])))
+    c.call(cat.kron_photometry, (2.0, 1.2))
+    c.call(cat.fluxfrac_radius, 0.5)
+    c.call(cat.make_kron_apertures)
+    c.call(cat.to_table)
+    c.call(cat.plot_kron_apertures, ax=_ax(), origin=c.plain([2.0, 3.0], 'origin'))
+    c.call(cat.plot_circular_apertures, 4.0, ax=_ax(), origin=(1.5, 2.5))
+    one = c.call(cat.__getitem__, 1)
+    if one is not None:
+        c.call(getattr, one, 'kron_flux')
+        c.call(one.circular_photometry, 5.0)
+    # a second catalogue re-using the SAME inputs (what a corrupted error array would silently change)
+    cat2 = c.call(SourceCatalog, data, segm, error=error, mask=c.mask, apermask_method='correct',
+                  detection_cat=cat, progress_bar=False)
+    if cat2 is not None:
+        c.call(getattr, cat2, 'kron_fluxerr')
+
+
+@entry('aperture_patches')
+def e_aperture_patches(c):
+    """plot / patch helpers of every pixel aperture class with a non-default origin, scalar and multi-position."""
+    rng = c.rng
+    aps = _pixel_apertures(c)
+    for ap in aps:
+        if ap is None:
+            continue
+        origin = c.plain([float(rng.uniform(1, 5)), float(rng.uniform(1, 5))], 'origin')
+        c.call(ap.plot, ax=_ax(), origin=origin, color='r')
+        c.call(ap.plot, ax=_ax(), origin=(3, 2))
+        one = c.call(ap.__getitem__, 0)
+        if one is not None:
+            c.own(one, 'aperture')
+            c.call(one.plot, ax=_ax(), origin=origin)
+        bb = c.call(lambda a=ap: a.bbox)
+        if bb:
+            c.call(bb[0].plot, ax=_ax(), origin=origin)
+            c.call(bb[0].as_artist)
+        c.call(lambda a=ap: a.positions)
+        c.call(ap.to_mask)
+        c.call(ap.do_photometry, c.data, mask=c.mask)       # photometry AFTER plotting with the same object
+        c.call(ap.copy)
